@@ -26,6 +26,13 @@ def run(tier, opts):
     if not ck.require_tlc_ok(res, "MC_ProofFile"):
         return ck.finish()
     streams = res.replays
+    # files with 12 FRI layers: decommitment lines of layers 1, 2, 10, 11 interleaved in every order
+    cfgl = common.gen_cfg("MC_ProofFile.cfg", {"NInner = 1": "NInner = 11"}, "layers")
+    resl = vf.tlc("MC_ProofFile", cfg=cfgl, workers=8, timeout=7200, heap="16g")
+    ck.add_tlc(resl, "MC_ProofFile(12 FRI layers)")
+    if not ck.require_tlc_ok(resl, "MC_ProofFile(12 FRI layers)"):
+        return ck.finish()
+    streams = streams + (resl.replays if not quick else resl.replays[::6])
     if opts.get("replay"):
         rp = json.load(open(opts["replay"]))
         if "case" in rp:
